@@ -61,7 +61,13 @@ func driverSource(specs []FileSpec) string {
 	}
 	b.WriteString(")\n\n")
 	for _, f := range specs {
-		fmt.Fprintf(&b, "var _ = pb%d.File_c17batch_gen_c%d_svc_proto\n", f.ID, f.ID)
+		fileVar := "File_" + strings.Map(func(r rune) rune {
+			if r >= 'a' && r <= 'z' || r >= 'A' && r <= 'Z' || r >= '0' && r <= '9' {
+				return r
+			}
+			return '_'
+		}, f.protoName())
+		fmt.Fprintf(&b, "var _ = pb%d.%s\n", f.ID, fileVar)
 		if f.Imported {
 			fmt.Fprintf(&b, "var _ = dep%d.File_c17batch_gen_c%ddep_dep_proto\n", f.ID, f.ID)
 		}
